@@ -228,6 +228,13 @@ func c15Exec(x *Ctx) {
 				x.Violate("g0-mount", "open of the directory failed")
 				return
 			}
+			if c.Seed%3 == 1 {
+				// requests the protocol refuses on an open directory fid (a second open for writing, a create): they
+				// change nothing about the listing that follows
+				p.Call(&Msg{Type: Topen, Tag: 4, Fid: 1, Mode: uint8([]int{1, 2, 16, 17}[c.Seed/3%4])})
+				p.Call(&Msg{Type: Tcreate, Tag: 5, Fid: 1, Name: "never", Perm: 0o644, Mode: 1})
+				x.Probe("refused-open-and-create-on-the-open-directory-fid")
+			}
 			// learn the entry sizes with one generous listing
 			maxc := int(p.Msize) - 24
 			sizes, ok := c15List(x, p, func(int) int { return maxc }, want, "generous count", dotu, -1)
